@@ -342,7 +342,7 @@ class AST:
                 out.append('null')
             else:
                 # template template arg etc.
-                out.append(json.dumps({k: v for k, v in ta.items() if k not in ('inner', '_file', '_line')}))
+                out.append('tmpl')
         for c in n.get('inner', []) or []:
             if c.get('kind') == 'TemplateArgument':
                 walk(c)
@@ -493,6 +493,7 @@ class Translator:
         self._ret_hint = {}
         self.hidden_vars = {}
         self.legacy_lambda = {}
+        self.alias_templates = {}
         self._scan()
 
     # ---------------------------------------------------------------- scanning
@@ -518,6 +519,8 @@ class Translator:
                             if k == 'ClassTemplateSpecializationDecl':
                                 base = q[:len(q) - len(norm_type_string(ast.record_local_name(n)))] + n.get('name', '')
                                 self.templ.setdefault(base, []).append((ast.targs(n), n))
+            elif k == 'TypeAliasTemplateDecl':
+                self.alias_templates.setdefault(n.get('name'), []).append(n)
             elif k == 'EnumDecl':
                 if n.get('name'):
                     self.enums.setdefault(norm_type_string(ast.qualname(n)), n)
@@ -667,6 +670,9 @@ class Translator:
             return self.enum_ct(self.enums[name])
         r = self._suffix_lookup(name, base, args, fctx, node, scope)
         if r is not None: return r
+        if args is not None:
+            r = self._alias_template(base, args, fctx, node, scope)
+            if r is not None: return r
         # aliases: local, then record scope, then global
         if fctx is not None and name in fctx.aliases and fctx.aliases[name] is not None:
             return self.ctype(fctx.aliases[name], fctx, node, scope)
@@ -695,6 +701,16 @@ class Translator:
                         if q in self.galias: return self.ctype(self.galias[q], fctx, node, cur)
                         if q in self.records: return self.record_ct(self.records[q], fctx)
                     cur = self.ast.par(cur)
+        # clang prints template arguments "as written" inside desugared strings ('std::array<tuple<SIMD, unsigned long>, 3>'
+        # for nmtools_tuple<SIMD,index_t> written inside namespace nmtools::index):
+        #  * an unqualified enum name: the unique enum with that last component
+        #  * an unqualified std:: model template: no instantiated non-std template of that name and arguments matched above
+        #    (_suffix_lookup), so it can only be the std model
+        if '::' not in name and args is None:
+            eh = [d for (q, d) in self.enums.items() if q.endswith('::' + name)]
+            if len(eh) == 1: return self.enum_ct(eh[0])
+        if args is not None and '::' not in base and ('std::' + base) in STD_MODELS:
+            return self.model_ct('std::' + base, args, fctx, node)
         fail('unknown type name %r' % name, node)
 
     def _suffix_index(self):
@@ -712,6 +728,7 @@ class Translator:
 
     def _same_arg(self, want, have, fctx, node, scope):
         if want == have: return True
+        if have == 'tmpl': return True      # template template argument: clang 14 JSON does not print it (wildcard)
         if re.match(r'^-?\d+$', want) or re.match(r'^-?\d+$', have) or want in ('true', 'false') or have in ('true', 'false'):
             return want == have
         try:
@@ -750,6 +767,36 @@ class Translator:
         exact = [d for (a, d) in cands if len(a) == len(args)]
         if len(exact) == 1: return self.record_ct(exact[0], fctx)
         if not exact and len(cands) == 1: return self.record_ct(cands[0][1], fctx)
+        return None
+
+    def _alias_template(self, base, args, fctx, node, scope):
+        """resolve  alias_t<args>  by textual substitution into the alias template's pattern (simple patterns only)"""
+        last = base.split('::')[-1]
+        for at in self.alias_templates.get(last, []):
+            q = norm_type_string(self.ast.qualname(at))
+            if not (q == base or q.endswith('::' + base)): continue
+            params = []; pat = None
+            for c in at.get('inner', []) or []:
+                if c.get('kind') in ('TemplateTypeParmDecl', 'NonTypeTemplateParmDecl'):
+                    params.append((c.get('name'), bool(c.get('isParameterPack'))))
+                elif c.get('kind') == 'TypeAliasDecl':
+                    pat = c.get('type', {}).get('qualType')
+            if pat is None: continue
+            sub = pat
+            ai = 0; ok = True
+            for pn, is_pack in params:
+                if not pn: ok = False; break
+                if is_pack:
+                    rest = args[ai:]; ai = len(args)
+                    sub = re.sub(r'\b%s\b\s*\.\.\.' % re.escape(pn), ', '.join(rest), sub)
+                else:
+                    if ai >= len(args): ok = False; break
+                    sub = re.sub(r'\b%s\b' % re.escape(pn), lambda m, a=args[ai]: a, sub); ai += 1
+            if not ok or ai != len(args): continue
+            try:
+                return self.ctype_str(sub, fctx, node, scope=self.ast.par(at))
+            except Unsupported:
+                continue
         return None
 
     def _last_scope_sep(self, name):
@@ -863,10 +910,15 @@ class Translator:
             pass
         return sanitize(a)
 
+    def abbr(self, name, canonical, maxlen):
+        """deterministic abbreviation of over-long identifiers: prefix + hash of the canonical (stable) name"""
+        if len(name) <= maxlen: return name
+        return '%s_%s' % (name[:maxlen - 8].rstrip('_'), hashlib.sha1(str(canonical).encode()).hexdigest()[:6])
+
     def uniq(self, table, want, key, skey=None):
         """unique C identifier; collisions get a suffix derived from a *stable* key (mangled name / canonical type name),
         never from AST node addresses"""
-        want = want[:120]
+        want = self.abbr(want, skey if skey is not None else want, 120)
         nm = want; i = 1
         while nm in table and table[nm] != key:
             i += 1
@@ -888,7 +940,7 @@ class Translator:
             base, args = split_template(norm_type_string(q))
             if base in STD_MODELS:
                 return self.model_ct(base, args, fctx, decl)
-        short = self.short_of_name(decl)
+        short = self.abbr(self.short_of_name(decl), self._record_skey(decl), 56)
         cname = self.uniq(self.struct_names, short, rid, skey=self._record_skey(decl))
         ct = CT('struct', c='struct ' + cname, rec=decl, short=cname)
         self.rec_ct[rid] = ct
@@ -1006,18 +1058,28 @@ class Translator:
             return ct
         if base in ('std::tuple', 'std::pair'):
             es = [self.ctype_str(a, fctx, node) for a in args]
+            # the same tuple type may be spelled differently ('std::tuple<SIMD, unsigned long>' / 'std::tuple<nmtools::index::SIMD, ...>'):
+            # one C struct per list of resolved element types
+            ckey = base + '<' + ', '.join(e.decl() for e in es) + '>#canon'
+            if ckey in self.rec_ct:
+                self.rec_ct[key] = self.rec_ct[ckey]
+                return self.rec_ct[ckey]
             cname = self.uniq(self.struct_names, 'tup_' + '_'.join(e.short for e in es) if es else 'tup_empty', key)
             ct = CT('struct', c='struct ' + cname, short=cname, model='tuple', margs=es)
-            self.rec_ct[key] = ct
-            fl = ['  %s;' % e.decl('e%d' % i) for i, e in enumerate(es)] or ['  char _empty;']
+            self.rec_ct[key] = ct; self.rec_ct[ckey] = ct
+            fl =['  %s;' % e.decl('e%d' % i) for i, e in enumerate(es)] or ['  char _empty;']
             self.struct_defs.append('/* model of %s */\nstruct %s {\n%s\n};\n' % (key, cname, '\n'.join(fl)))
             return ct
         if base == 'std::array':
             if len(args) != 2: fail('std::array without arguments: ' + key, node)
             e = self.ctype_str(args[0], fctx, node); n = int(args[1])
+            ckey = '%s<%s, %d>#canon' % (base, e.decl(), n)     # one C struct per resolved element type (spelling-independent)
+            if ckey in self.rec_ct:
+                self.rec_ct[key] = self.rec_ct[ckey]
+                return self.rec_ct[ckey]
             cname = self.uniq(self.struct_names, 'arr_%s_%d' % (e.short, n), key)
             ct = CT('struct', c='struct ' + cname, short=cname, model='array', margs=[e, n])
-            self.rec_ct[key] = ct
+            self.rec_ct[key] = ct; self.rec_ct[ckey] = ct
             body = '  %s;' % e.decl('_M_elems[%d]' % n) if n > 0 else '  char _empty;'
             self.struct_defs.append('/* model of %s */\nstruct %s {\n%s\n};\n' % (key, cname, body))
             if n > 0:
@@ -1090,7 +1152,8 @@ class Translator:
             for c in decl.get('inner', []) or []:
                 if c.get('kind') == 'ParmVarDecl':
                     try:
-                        ps.append(self.ctype(c.get('type'), fctx, c).short)
+                        sh = self.ctype(c.get('type'), fctx, c).short
+                        ps.append(self.abbr(sh, sh, 40))
                     except Unsupported:
                         ps.append('x')
             targs = [self.short_arg(a) for a in self.ast.targs(decl)]
@@ -2093,7 +2156,7 @@ class Translator:
             fail('non-empty record constant %s' % d.get('name'), n)
         init = None
         for c in d.get('inner', []) or []:
-            if c.get('kind') in ('TemplateArgument',) or c.get('kind', '').endswith('Attr'): continue
+            if c.get('kind') in ('TemplateArgument', 'FullComment') or c.get('kind', '').endswith('Attr'): continue
             init = c
         if init is None:
             # maybe a declaration; look for a definition with the same mangled name
@@ -2128,7 +2191,7 @@ class Translator:
             if d is None: fail('const eval: unknown decl', e)
             init = None
             for c in d.get('inner', []) or []:
-                if c.get('kind') in ('TemplateArgument',) or c.get('kind', '').endswith('Attr'): continue
+                if c.get('kind') in ('TemplateArgument', 'FullComment') or c.get('kind', '').endswith('Attr'): continue
                 init = c
             if init is None: fail('const eval: no init for %s' % d.get('name'), e)
             return self.const_eval(init, fctx, depth + 1)
@@ -2192,6 +2255,9 @@ class Translator:
         ea = self.ex(a, fctx); eb = self.ex(b, fctx)
         if op in ARITH_MACRO and self._is_ul(n, fctx) and self._is_ul(a, fctx) and self._is_ul(b, fctx):
             return '%s_ul(%s, %s)' % (ARITH_MACRO[op], ea, eb)
+        if op in ('/', '%') and all(strip_cv((x.get('type', {}).get('desugaredQualType') or x.get('type', {}).get('qualType') or '')) == 'int' for x in (n, a, b)):
+            # int / int, int % int: macro (models/prelude.h: the C operator; a spec header may override it with an uninterpreted function + axioms)
+            return '%s_i(%s, %s)' % (ARITH_MACRO[op], ea, eb)
         if op == ',': return '(%s, %s)' % (ea, eb)
         if op == '=':
             return '(%s = %s)' % (ea, eb)
@@ -2394,6 +2460,17 @@ class Translator:
                 f = core['field']
                 return '{.%s = %s}' % (self.field_names.get(f.get('id'), f.get('name')), self.initializer(items[0], fctx))
             if not items: return '{0}'
+            if ct.kind == 'struct' and ct.rec is not None:
+                # aggregate initialisation: bases first, then fields; reference members bind by address
+                slots = []
+                for b in ct.rec.get('bases', []) or []: slots.append(False)
+                for c in ct.rec.get('inner', []) or []:
+                    if c.get('kind') == 'FieldDecl': slots.append(self.is_ref_type(c.get('type'), fctx, ct.rec))
+                parts = []
+                for i, c in enumerate(items):
+                    if i < len(slots) and slots[i]: parts.append(self.addr(c, fctx))
+                    else: parts.append(self.initializer(c, fctx))
+                return '{%s}' % ', '.join(parts)
             if ct.kind in ('struct', 'array'):
                 return '{%s}' % ', '.join(self.initializer(c, fctx) for c in items)
             return self.ex(items[0], fctx)
